@@ -125,7 +125,7 @@ c06a_run(const c06a_case *c, c06a_out *out) {
 
 /* ============================ (b) firing ============================ */
 static tp_p gb_tp;
-static tpt_p gb_owner;
+static tpt_p gb_owner, gb_reg_tpt;
 static const c06b_case *gb_case;
 static int gb_sp[C06_MAX_CH][2];
 static tp_udata_t gb_ud[C06_MAX_CH];
@@ -165,7 +165,7 @@ reg_op(const c06b_cmd *cm) {
 	uint64_t data = (TP_EV_TIMER == ev) ? gb_case->period_ms[ch] : 0;
 
 	switch (cm->cmd) {
-	case E_ADD: return (tpt_ev_add_args(gb_owner, ev, cm->flags, ff, data, &gb_ud[ch]));
+	case E_ADD: return (tpt_ev_add_args(gb_reg_tpt, ev, cm->flags, ff, data, &gb_ud[ch]));
 	case E_ENABLE: return (tpt_ev_enable_args(1, ev, cm->flags, ff, data, &gb_ud[ch]));
 	case E_DISABLE: return (tpt_ev_enable_args(0, ev, cm->flags, ff, data, &gb_ud[ch]));
 	case E_ENABLE1: return (tpt_ev_enable_args1(1, ev, &gb_ud[ch]));
@@ -232,6 +232,7 @@ c06b_run(const c06b_case *c, c06b_out *out) {
 		return;
 	tp_threads_create(gb_tp, 0);
 	gb_owner = tp_thread_get(gb_tp, 0);
+	gb_reg_tpt = c->on_pvt ? tp_thread_get_pvt(gb_tp) : gb_owner;
 	for (ch = 0; ch < C06_MAX_CH; ch ++) {
 		atomic_store(&gb_fired[ch], 0);
 		gb_last_flags[ch] = 0;
